@@ -93,4 +93,13 @@ theorem C13_zone_reads : Gen.Source.ambientReads =
      "uhppote/get_status.go:uhppote.GetStatus: time.Local",
      "uhppote/listen.go:uhppote.Listen: time.Local"] := by decide
 
+/-- no date or time function keeps anything between calls (a zone decision taken once per process, a cache of instants): the package-level variables of the four packages (regenerated) are these ten - the
+    codec's patterns and kind table, the two card-format patterns, the bind-port mutex, `NOTIMEOUT` and three error
+    values - every one of them initialised when its package is loaded. A `sync.Once`, a lazily filled map or a cache
+    would have to appear here. -/
+theorem C13_package_state : Gen.Source.packageVars = ["encoding/UTO311-L0x/UT0311-L0x.go:var re", "encoding/UTO311-L0x/UT0311-L0x.go:var tBool,tByte,tUint16,…",
+    "encoding/UTO311-L0x/UT0311-L0x.go:var vre", "types/card-format.go:var w26", "types/card-format.go:var wAny",
+    "uhppote/UT0311.go:var NOTIMEOUT", "uhppote/UT0311.go:var guard", "uhppote/errors.go:var ErrIncorrectController",
+    "uhppote/errors.go:var ErrInvalidCard", "uhppote/errors.go:var ErrInvalidListenerAddress"] := by decide
+
 end Uhppote.Props.C13
